@@ -68,6 +68,11 @@ def gen_grammars(shard: dict):
             label, rules, inputs = G.stack_dig_case(idx)
             EXTRA_INPUTS[label] = inputs
             yield label, rules
+    elif src == "stackswap":
+        for idx in shard["indices"]:
+            label, rules, inputs = G.stack_swap_case(idx)
+            EXTRA_INPUTS[label] = inputs
+            yield label, rules
     elif src == "opttargets":
         for idx in shard["indices"]:
             label, rules, inputs = G.opt_target_case(idx)
@@ -289,6 +294,36 @@ def render_compact(dump: list) -> str:
 # C13 checks on a failure
 
 
+_BREAKS = "\n\r\x0b\x0c\x1c\x1d\x1e\x85\u2028\u2029"
+
+
+def _where_nl(text: str, p: int) -> tuple[int, int, str]:
+    """(line, column, stripped source line) of offset p when only "\n" ends a line."""
+    ls = text.rfind("\n", 0, p) + 1
+    le = text.find("\n", p)
+    return 1 + text.count("\n", 0, p), p - ls + 1, text[ls : le if le != -1 else len(text)].rstrip()
+
+
+def _where_splitlines(text: str, p: int) -> tuple[int, int, str]:
+    """Same under the line boundaries of str.splitlines(), written as a scan (not with splitlines itself)."""
+    line, ls, i = 1, 0, 0
+    while i < p:
+        c = text[i]
+        if c == "\r" and text[i + 1 : i + 2] == "\n":
+            if i + 1 >= p:
+                break  # p sits between "\r" and "\n": still on this line
+            i += 2
+            line, ls = line + 1, i
+            continue
+        i += 1
+        if c in _BREAKS:
+            line, ls = line + 1, i
+    le = ls
+    while le < len(text) and text[le] not in _BREAKS:
+        le += 1
+    return line, p - ls + 1, text[ls:le].rstrip()
+
+
 def check_failure(exc, text: str, start: int, known_names: set[str]) -> str | None:
     import re as _re
 
@@ -308,24 +343,26 @@ def check_failure(exc, text: str, start: int, known_names: set[str]) -> str | No
         return f"rendering the error raised {type(e).__name__}: {e}"
     if not isinstance(msg, str) or not isinstance(dm, str):
         return "message is not a string"
-    if p >= 0 and not any(c in text for c in "\r\x0b\x0c\x1c\x1d\x1e\x85\u2028\u2029"):
+    if p >= 0:
         # the statement fixes WHAT is shown (line:column and source line of p), not the layout of the message:
-        # look for the expected values anywhere in the rendered text
-        line = 1 + text.count("\n", 0, p)
-        col = p - (text.rfind("\n", 0, p) + 1) + 1
+        # look for the expected values anywhere in the rendered text.  Two line conventions are accepted: lines end
+        # at "\n" only, or at every boundary of str.splitlines() ("\r\n" counting as ONE break); they coincide on
+        # texts without the exotic break characters.
         found = _re.findall(r"(?<![\d:])(\d+):(\d+)(?![\d:])", dm)
-        if found and (str(line), str(col)) not in found:
-            return f"message says {' / '.join(a + ':' + b for a, b in found[:3])} but position {p} is {line}:{col}"
-        ls = text.rfind("\n", 0, p) + 1
-        le = text.find("\n", p)
-        src = text[ls : le if le != -1 else len(text)].rstrip()
-        if found and src and len(src) <= 200 and src not in dm:
-            return f"the source line containing position {p} ({src!r}) is not shown in the message"
-        if found and not src:
-            # an empty line must not be replaced by some other line of the input
+        if found:
             shown = [ln.split("|", 1)[1].strip() for ln in dm.split("\n") if _re.match(r"\s*\d+\s*\|", ln)]
-            if any(shown):
-                return f"position {p} is on an empty line but the message shows {shown!r}"
+            whys = []
+            for line, col, src in {_where_nl(text, p), _where_splitlines(text, p)}:
+                if (str(line), str(col)) not in found:
+                    whys.append(f"message says {' / '.join(a + ':' + b for a, b in found[:3])} but position {p} is {line}:{col}")
+                elif src and len(src) <= 200 and src not in dm:
+                    whys.append(f"the source line containing position {p} ({src!r}) is not shown in the message")
+                elif not src and any(shown):
+                    # an empty line must not be replaced by some other line of the input
+                    whys.append(f"position {p} is on an empty line but the message shows {shown!r}")
+                else:
+                    return None
+            return whys[0]
     return None
 
 
